@@ -389,8 +389,8 @@ Proof. vm_compute. reflexivity. Qed.
        without append it is renamed by the time of its creation;
    (3) a_r1999-01-01_00-00-00.log: without cleanup it is left alone and has no influence (its time stamp is not asked for).
        With the cleanup "keep 2 log files" it is listed, counts as the newest file, and one of the logger's own files is
-       removed in its place; a_r1960-01-01_00-00-00.log counts as the oldest and IS REMOVED; a_r1970-1-1_0-0-0.log (the
-       time-stamp filter reads it as a time stamp) counts, too.
+       removed in its place; a_r1960-01-01_00-00-00.log counts as the oldest and IS REMOVED; a_r1970-1-1_0-0-0.log (chrono
+       reads it as a time stamp, but it is not the text the format writes) is foreign since the repair of the time-stamp filter.
    All these names DO follow the pattern <fixed>_<infix of the naming>.<suffix>[.gz]: this is legitimate.
    (a_r1x.log, which passes no filter that Timestamps naming applies, was a member here as long as the family test was
    "time-stamp filter or number filter"; it is foreign now: number_infix_foreign_t.) *)
@@ -399,7 +399,7 @@ Example member_files_t :
   List.map (ts_member extf_c) [bs "a_r1970-01-01_00-00-00.log"; bs "a_r1970-01-01_00-00-00.restart-0005.log";
                                bs "a_r1970-01-01_00-00-00.log.gz"; bs "a_rCURRENT.log"; bs "a_r1999-01-01_00-00-00.log";
                                bs "a_r1960-01-01_00-00-00.log"; bs "a_r1970-1-1_0-0-0.log"]
-  = [true; true; true; true; true; true; true]
+  = [true; true; true; true; true; true; false]
   (* 1 *)
   /\ run_with KNever true "a_r1970-01-01_00-00-00.log"
      = [ (bs "a_r1970-01-01_00-00-00.log", 0%N, bs "w");
@@ -449,10 +449,6 @@ Example member_files_t :
   /\ run_with (KLog 2) true "a_r1960-01-01_00-00-00.log"
      = [ (bs "a_r1970-01-01_00-00-00.restart-0000.log", 0%N, bs "ef");
          (bs "a_r1970-01-01_00-00-00.restart-0001.log", 0%N, bs "ghij");
-         (bs "a_rCURRENT.log", 0%N, bs "k") ]
-  /\ run_with (KLog 2) true "a_r1970-1-1_0-0-0.log"
-     = [ (bs "a_r1970-01-01_00-00-00.restart-0001.log", 0%N, bs "ghij");
-         (bs "a_r1970-1-1_0-0-0.log", 0%N, bs "w");
          (bs "a_rCURRENT.log", 0%N, bs "k") ].
 Proof. vm_compute. repeat split. Qed.
 
